@@ -44,7 +44,8 @@ EXPECTED_PROBES = ["probe_fault_depth_1", "probe_fault_depth_2", "probe_fault_de
                    "probe_natural_fault_undefined_fn", "probe_cond_false_branch", "probe_cond_true_branch", "probe_projection_call", "probe_recursion",
                    "probe_subst_projection_patterns", "probe_subst_each", "probe_subst_over", "probe_subst_at",
                    "probe_nested_recursions", "probe_nilad_calls", "probe_subst_over_matrix", "probe_subst_after_global_reassigned",
-                   "probe_subst_projection_as_each_verb", "probe_long_history_of_failed_calls"]
+                   "probe_subst_projection_as_each_verb", "probe_long_history_of_failed_calls", "probe_tail_recursion_with_locals",
+                   "probe_projection_of_recursive_function", "probe_projection_with_variable_argument_as_verb"]
 WALL_CAP = {"quick": 400, "thorough": 3600}
 
 
@@ -557,7 +558,7 @@ def scenario_subst(ch, cfg):
         if tick_ids is not None and sorted(tick.log) != sorted(tick_ids):
             viol(f"C03:subst:{form.split(':')[0]}-argument-evaluation-count",
                  f"{' ; '.join(src_lines)}: argument ticks evaluated {sorted(tick.log)}, expected exactly once each {sorted(tick_ids)}")
-        g = {k_: v for k_, v in _globals(k).items() if k_ not in ("F", "v", "p1", "p2", "p3", "r9")}
+        g = {k_: v for k_, v in _globals(k).items() if k_ not in ("F", "v", "p1", "p2", "p3", "r9", "ga", "W")}
         if r == w and r[0] == "ok" and g != exp_globals:
             viol(f"C03:subst:{form.split(':')[0]}-leaves-different-globals", f"{' ; '.join(src_lines)}: globals {g} vs {exp_globals}")
 
@@ -607,6 +608,38 @@ def scenario_subst(ch, cfg):
     evaluations += 1
     if rz3 != ("ok", ("i", 9)):
         viol("C03:subst:nilad-call-disturbs-caller", f"KP::{{[a];a::x*2;TK();a+x}}; cnt::4;KP(3) gives {rz3}, expected 9")
+    # recursion through .f in TAIL position with a declared local that only one level assigns: every level has a local
+    # of its own, so the level that reads it without having assigned it sees an unassigned local (whatever that is - the
+    # harness asks a function that does nothing else), never the value another level left behind
+    bump("probe_tail_recursion_with_locals")
+    kT, tT = fresh()
+    unassigned = _run(kT, "{[t];t}()")
+    for K in (0, 1 + ch.draw(3, "tail_k")):
+        for tail_body in (f"[t];:[x={K};t::7;0];:[x=0;t;.f(x-1)]", f"[t];:[x={K};t::7;0];:[x=0;t;:[x>0;.f(x-1);0]]"):
+            kT(f"RT::{{{tail_body}}}")
+            for nn in (K, K + 1 + ch.draw(3, "tail_n")):
+                rt = _run(kT, f"RT({nn})")
+                evaluations += 1
+                want_t = ("ok", ("i", 7)) if K == 0 else unassigned
+                if rt != want_t:
+                    viol("C03:subst:tail-recursion-through-dot-f-shares-locals",
+                         f"RT::{{{tail_body}}}; RT({nn}) gives {rt}; the level with x=0 reads a local only the level with x={K} assigned: expected {want_t}")
+    # a projection of a function that recurses through .f: .f is the function, not the projection it was reached through
+    bump("probe_projection_of_recursive_function")
+    kC, tC = fresh()
+    kC("CN::{:[x=0;y;.f(x-1;y+1)]}")
+    cn, cy = 1 + ch.draw(4, "cn_n"), ch.pick([0, 10, 100], "cn_y")
+    for lines, want_c in (([f"p1::CN(;{cy})", f"p1({cn})"], ("i", cn + cy)), ([f"p2::CN({cn};)", f"p2({cy})"], ("i", cn + cy)),
+                          ([f"p1::CN(;{cy})", f"p1@{cn}"], ("i", cn + cy)), ([f"p1::CN(;{cy})", f"p1'[{cn} {cn + 1}]"], ("L", (("i", cn + cy), ("i", cn + cy + 1)))),
+                          ([f"p2::CN({cn};)", f"p2'[{cy} 1]"], ("L", (("i", cn + cy), ("i", cn + 1))))):
+        kC2, _t = fresh()
+        kC2("CN::{:[x=0;y;.f(x-1;y+1)]}")
+        rc_ = None
+        for line in lines:
+            rc_ = _run(kC2, line)
+        evaluations += 1
+        if rc_ != ("ok", want_c):
+            viol("C03:subst:projection-of-recursive-function", f"CN::{{:[x=0;y;.f(x-1;y+1)]}}; {' ; '.join(lines)} gives {str(rc_)[:100]}, expected {want_c} (x+y)")
     # a projection whose pre-filled argument is a literal list
     if n >= 2 and body in ("x,y", "y,x", "x,y,z", "z,y,x"):
         lit_first = ";".join(["[1 2]"] + [""] * (n - 1))
@@ -666,6 +699,19 @@ def scenario_subst(ch, cfg):
         bump("probe_subst_projection_as_each_verb")
         check("projection-each", [f"p1::F({args[0]};)", f"p1'[{args[1]} {args[1]}]"], want=("ok", ("L", (expected[1], expected[1]))))
         check("projection-each", [f"p1::F(;{args[1]})", f"p1'[{args[0]} {args[0]}]"], want=("ok", ("L", (expected[1], expected[1]))))
+    # ---- the same with a fixed argument that is not a literal: a global variable, a computed expression
+    if n == 2 and all(a in ("0", "1", "2", "7") for a in args) and not body.startswith("[") and expected[0] == "ok":
+        bump("probe_projection_with_variable_argument_as_verb")
+        two = ("ok", ("L", (expected[1], expected[1])))
+        a0, a1 = args
+        check("projection-var-each", [f"ga::{a0}", f"p1::F(ga;)", f"p1'[{a1} {a1}]"], want=two)
+        check("projection-var-each", [f"ga::{a1}", f"p1::F(;ga)", f"p1'[{a0} {a0}]"], want=two)
+        check("projection-var-each", [f"ga::{a0}", f"F(ga;)'[{a1} {a1}]"], want=two)
+        check("projection-var-each", [f"ga::{a0}", f"p1::F(ga+0;)", f"p1'[{a1} {a1}]"], want=two)
+        check("projection-var-at", [f"ga::{a0}", f"p1::F(ga;)", f"p1@{a1}"])
+        check("projection-var-at", [f"ga::{a1}", f"p1::F(;ga+0)", f"p1@{a0}"])
+        # ... and from inside a function whose parameter is the fixed argument
+        check("projection-var-each", [f"W::{{F(x;)'[{a1} {a1}]}}", f"W({a0})"], want=two)
     # ---- projections: every non-empty proper subset of holes, filled in every order, one or several steps
     if n >= 2:
         bump("probe_subst_projection_patterns")
